@@ -151,10 +151,10 @@ type Exec struct {
 	// such a pair is not judged afterwards (counted).
 	RemovedWithStake map[string]bool
 	Twin             *Exec
-	TwinRes *Res
-	ExportA []byte   // export of the original at the fork
-	ExportB []byte   // export of the re-imported twin at the fork
-	ErrLogs []ErrLog // Error-level log lines (x/staking logs swallowed hook errors)
+	TwinRes          *Res
+	ExportA          []byte   // export of the original at the fork
+	ExportB          []byte   // export of the re-imported twin at the fork
+	ErrLogs          []ErrLog // Error-level log lines (x/staking logs swallowed hook errors)
 
 	Oracles []Oracle
 	// OnRejected, when set, is called with the transaction's branch context after a message
